@@ -831,6 +831,25 @@ pub fn drive_steer(seed: u64, tier: &str, out: &mut Out) {
             em.emit(&obs, out);
         }
     }
+    // one archive whose single (gzip-compressible) directory holds more than 65536 entries: adjacent IDs,
+    // distinct contents of equal length; judged through count, listing and lookups after the reopen
+    {
+        let n = 66_000u64;
+        let tiles: Vec<(u64, Vec<u8>)> = (0..n).map(|i| (i + 5, (i as u32).to_le_bytes().to_vec())).collect();
+        let mut set = Settings::default_for(1, 1);
+        set.ic = 2;
+        let mut ops = vec![Op::New { tt: 1, tc: 1, api: 0 }, Op::Set(set), Op::Bulk(tiles), Op::Save, Op::Reopen { api: 1 }, Op::Count, Op::List];
+        for _ in 0..150 {
+            ops.push(Op::Get { id: rng.below(n + 10) });
+        }
+        ops.push(Op::Get { id: n + 4 });
+        ops.push(Op::Get { id: 65_536 + 5 });
+        ops.push(Op::Reset);
+        em.light = true;
+        em.emit(&exec(&ops, false), out);
+        println!("stat steer_archive_beyond_65536_entries=1");
+        em.light = false;
+    }
     println!("stat steer_saves_with_leaf_directories={spilled}");
     println!("stat steer_saves_with_root_near_budget={window}");
 }
